@@ -19,6 +19,9 @@ def handle (line : String) : String :=
   | ["ioc", i, o, p] => match i.toInt?, o.toInt?, p.toInt? with
     | some i, some o, some p => showPairs (io_contention {} (mem (i ≠ 0) o) p)
     | _, _, _ => "bad-op"
+  | ["cfg", i] => match i.toInt? with
+    | some i => let c := cfgFor (i ≠ 0); s!"{c.frame_duration} {c.int_active} {c.t0} {c.t1}"
+    | none => "bad-op"
   | _ => "bad-op"
 
 def main : IO Unit := loop handle
